@@ -383,7 +383,7 @@ func (vc *VC) applyContract(st *State, c *Contract, key string, sig *types.Signa
 		}
 	}
 	for _, en := range c.Ensures {
-		if usesCall(en.E, "callres") || usesCall(en.E, "callarg") || usesCall(en.E, "called") || usesCall(en.E, "keys") {
+		if usesCall(en.E, "callres") || usesCall(en.E, "callarg") || usesCall(en.E, "called") || usesCall(en.E, "keys") || usesCall(en.E, "nocall") {
 			continue // internal clause (own call sites / own literal tables): not part of the interface
 		}
 		if vc.contract != nil && vc.contract.Use != nil {
